@@ -18,6 +18,7 @@ func init() {
 	vRegister("H_C03_transplant", H_C03_transplant)
 	vRegister("H_C03_signature_forms", H_C03_signature_forms)
 	vRegister("H_C03_unprotected_edits", H_C03_unprotected_edits)
+	vRegister("H_C03_countersign_forms", H_C03_countersign_forms)
 }
 
 // refVerifier: a built-in verifier and the primitive's verdict on (ToBeSigned, signature) stated independently
@@ -410,6 +411,46 @@ func H_C03_unprotected_edits() {
 		vAssert("unprotected edits: the genuine signature still verifies", res == nil)
 	} else {
 		vAssert("unprotected edits: no protected alg and no external data stays an error", res != nil)
+	}
+	vReach("end")
+}
+
+// a genuine countersignature of one form offered as the other form over the same decoded COSE_Sign1 parent
+// (empty countersigner protected bucket, so the two structures differ in the context string only)
+func H_C03_countersign_forms() {
+	c07Start(1)
+	rv := mkRefVerifier("v")
+	pprot, pcontent := c03Protected("parent", nil)
+	payload := vBlob("payload")
+	psig := vBlobN("parent.sig", 1, 64)
+	ext := vBlobN("ext", 1, 64) // no alg anywhere: external data is required
+	tbsFull := refSigStructure("CounterSignatureV2", [][]byte{pcontent, {}}, ext, payload, []*vNodeT{nnBstr(psig, -1)})
+	tbsAbbr := refSigStructure("CounterSignature0V2", [][]byte{pcontent, {}}, ext, payload, []*vNodeT{nnBstr(psig, -1)})
+	madeAsFull := vChoose("made.as", 2) == 0
+	var sig []byte
+	if madeAsFull {
+		sig = rv.sign(tbsFull)
+	} else {
+		sig = rv.sign(tbsAbbr)
+	}
+	cs := nnArray([]*vNodeT{nnBstr([]byte{}, vWidth("cs.pw", 0)), nnMap(nil, 0), nnBstr(sig, -1)}, 0)
+	unprot := nnMap([]*vNodeT{nnInt(0, 11, -1), cs}, -1)
+	var m Sign1Message
+	vAssume(m.UnmarshalCBOR(vSer(nnTag(18, nnArray([]*vNodeT{pprot, unprot, nnBstr(payload, -1), nnBstr(psig, -1)}, 0), 0))) == nil)
+	got, ok := m.Headers.Unprotected[HeaderLabelCounterSignatureV2].(*Countersignature)
+	vAssume(ok)
+	resFull := got.Verify(rv.ver, &m, ext)
+	resAbbr := VerifyCountersign0(rv.ver, &m, ext, sig)
+	if madeAsFull {
+		vAssert("forms: a full countersignature verifies as what it is", resFull == nil)
+		if !rv.verdict(tbsAbbr, sig) {
+			vAssert("forms: a full countersignature is not accepted as an abbreviated one", resAbbr != nil)
+		}
+	} else {
+		vAssert("forms: an abbreviated countersignature verifies as what it is", resAbbr == nil)
+		if !rv.verdict(tbsFull, sig) {
+			vAssert("forms: an abbreviated countersignature is not accepted as a full one", resFull != nil)
+		}
 	}
 	vReach("end")
 }
